@@ -233,6 +233,7 @@ func (d *dir) gc(cur, prev time.Time) error {
 	if err != nil {
 		return fmt.Errorf("failed to list repos in gc: %w", err)
 	}
+	errs := []error{}
 	for _, r := range repoNames {
 		// if stop ch was closed, exit immediately
 		select {
@@ -252,12 +253,13 @@ func (d *dir) gc(cur, prev time.Time) error {
 		if outsideRange {
 			continue
 		}
+		// a failure in one repo should not block the GC of other repos
 		err = repo.gc()
 		if err != nil {
-			return err
+			errs = append(errs, err)
 		}
 	}
-	return nil
+	return errors.Join(errs...)
 }
 
 // IndexGet returns the current top level index for a repo.
